@@ -15,7 +15,7 @@ git diff -- src Cargo.toml example.cfg > ${WT_ROOT:-/tmp/wt}/$ID.actual.diff
 if ! git apply --check -R patch.diff 2>/dev/null; then echo "FAIL: patch.diff does not reverse-apply to the working tree"; exit 1; fi
 # 2. unit tests with the change
 T=$(cargo test --offline --lib --bins 2>&1 | grep -E "^test result" | head -1); echo "unit tests with change: $T"
-echo "$T" | grep -q "47 passed; 0 failed" || { echo "FAIL: unit tests"; exit 1; }
+echo "$T" | grep -q "${EXPECT_TESTS:-47} passed; 0 failed" || { echo "FAIL: unit tests"; exit 1; }
 # 3. demo with the change must fail
 ( eval "$DEMO" ) > ${WT_ROOT:-/tmp/wt}/$ID.demo_with.log 2>&1; RC1=$?
 echo "demo with change: exit $RC1"
